@@ -374,4 +374,47 @@ theorem recordLinks_next {rs : List Record} {prev next : List Int} (e : recordLi
       · intro h; exact absurd ⟨i, h⟩ hex
     · left; exact hun
 
+/-! ### time-adjacent continuing fragments are the next fragment of the same pulse -/
+
+/-- start time of the pulse a fragment belongs to, computed from its own fields -/
+def pulseStart (spr : Nat) (r : Record) : Int := r.time - r.recordI * ((spr : Int) * r.dt)
+
+/-- `b` is the fragment following `a` in one pulse -/
+def NextInPulse (spr : Nat) (a b : Record) : Prop :=
+  pulseStart spr a = pulseStart spr b ∧ a.dt = b.dt ∧ b.recordI = a.recordI + 1
+
+/-- the two records come from the same pulse, or from pulses of which the second starts after the buffer of `a` ends -/
+def SameOrDisjoint (spr : Nat) (a b : Record) : Prop :=
+  (pulseStart spr a = pulseStart spr b ∧ a.dt = b.dt) ∨ a.time + (spr : Int) * a.dt ≤ pulseStart spr b
+
+theorem adjacent_iff_next_in_pulse (spr : Nat) (a b : Record) (hspr : 0 < spr) (hdt : 0 < b.dt)
+    (hra : 0 ≤ a.recordI) (hrb : 0 ≤ b.recordI) (hd : SameOrDisjoint spr a b) :
+    (b.recordI ≠ 0 ∧ b.time = a.time + (spr : Int) * a.dt) ↔ NextInPulse spr a b := by
+  have hS : 0 < (spr : Int) * b.dt := Int.mul_pos (by omega) hdt
+  unfold NextInPulse
+  unfold SameOrDisjoint at hd
+  unfold pulseStart at *
+  generalize hSb : (spr : Int) * b.dt = S at *
+  constructor
+  · rintro ⟨h1, h2⟩
+    rcases hd with ⟨h3, h4⟩ | h3
+    · rw [h4, hSb] at h3 h2
+      refine ⟨by rw [h4, hSb]; exact h3, h4, ?_⟩
+      have : (b.recordI - a.recordI - 1) * S = 0 := by
+        rw [Int.sub_mul, Int.sub_mul]; omega
+      rcases Int.mul_eq_zero.1 this with h | h
+      · omega
+      · omega
+    · exfalso
+      have : 0 ≤ (b.recordI - 1) * S := Int.mul_nonneg (by omega) (by omega)
+      rw [Int.sub_mul] at this
+      omega
+  · rintro ⟨h1, h2, h3⟩
+    rw [h2, hSb] at h1 ⊢
+    refine ⟨by omega, ?_⟩
+    rw [h3, Int.add_mul] at h1
+    omega
+
+instance (spr : Nat) (a b : Record) : Decidable (SameOrDisjoint spr a b) := by unfold SameOrDisjoint; infer_instance
+
 end Strax.Pulse
